@@ -120,7 +120,7 @@ var c15Expected = map[string]string{
 	"Publish/none": "natsPublish", "Publish/leader": "natsPublish", "Publish/paused": "resumeStream",
 	"PublishAsync/one": "natsPublish", "PublishAsync/two": "natsPublish", "PublishAsync/paused": "resumeStream",
 	// the server's own streams are resources like any other: a publish straight into the cursors stream is a stored cursor record
-	"Publish/cursors": "setCursor", "PublishAsync/cursors": "setCursor",
+	"Publish/cursors": "natsPublish", "PublishAsync/cursors": "natsPublish",
 	"PublishToSubject/subj": "natsPublish", "SetCursor/set": "setCursor", "FetchCursor/get": "getCursor",
 	"JoinConsumerGroup/newgroup": "joinGroup", "JoinConsumerGroup/existing": "joinGroup",
 	"LeaveConsumerGroup/victim": "leaveGroup", "FetchConsumerGroupAssignments/victim": "groupHeartbeat",
@@ -679,6 +679,10 @@ func (e *c15Env) flush(fx *c15Fixture) map[string]int64 {
 	return out
 }
 
+// c15RawCursors: the call under test publishes straight into the cursors stream (shapes Publish/cursors,
+// PublishAsync/cursors): growth of that stream is then the publish itself, not a SetCursor.
+var c15RawCursors bool
+
 func c15Diff(before, after *c15Snap, sentinels map[string]int64) []string {
 	kinds := map[string]bool{}
 	bs := map[string]bool{}
@@ -712,7 +716,7 @@ func c15Diff(before, after *c15Snap, sentinels map[string]int64) []string {
 			kinds["setReadonly"] = true
 		}
 		if after.newest[name]-sentinels[name] > before.newest[name] {
-			if name == cursorsStream {
+			if name == cursorsStream && !c15RawCursors {
 				kinds["setCursor"] = true
 			} else {
 				kinds["natsPublish"] = true
@@ -823,6 +827,8 @@ func (e *c15Env) call(method, shape, polName, mode, identity string) (own bool, 
 	}
 	e.authz(false)
 	defer e.cleanup(fx)
+	c15RawCursors = false
+	defer func() { c15RawCursors = false }()
 	s := e.s
 	api := s.api
 
@@ -961,6 +967,7 @@ func (e *c15Env) call(method, shape, polName, mode, identity string) (own bool, 
 		}
 	case "Publish/cursors":
 		needFlush = true
+		c15RawCursors = true
 		fx.R = cursorsStream
 		do = func(ctx context.Context) error {
 			_, err := api.Publish(ctx, &client.PublishRequest{Stream: cursorsStream, Key: []byte("forged,key,0"), Value: []byte("x"), AckPolicy: client.AckPolicy_LEADER})
@@ -968,6 +975,7 @@ func (e *c15Env) call(method, shape, polName, mode, identity string) (own bool, 
 		}
 	case "PublishAsync/cursors":
 		needFlush = true
+		c15RawCursors = true
 		fx.R = cursorsStream
 		do = func(ctx context.Context) error {
 			fs := &c15PubStream{ctx: ctx, reqs: []*client.PublishRequest{{Stream: cursorsStream, Key: []byte("forged,key,0"), Value: []byte("x"), AckPolicy: client.AckPolicy_LEADER, CorrelationId: "c1"}}}
